@@ -2126,6 +2126,36 @@ def rule_sweepstop(text):
     return text, apps
 
 
+def rule_uringmisc(text):
+    """the io_uring write path (io.rs): InFlightBuffers, completion handling, batch_write_inner"""
+    apps = []
+    ws = r"\s*"
+    table = [
+        (r"\bassert!\(", "runtime_assert(", "R-assert", "assert! panics when its condition is false; the condition becomes a proof obligation (vstd runtime_assert requires it): the panic is proved unreachable"),
+        (r"for" + ws + r"\(index," + ws + r"buffer\)" + ws + r"in" + ws + r"self\.buffers\.iter_mut\(\)\.enumerate\(\)" + ws + r"\{", "for index in 0..self.buffers.len() {", "R-for",
+         "definition of iter_mut().enumerate() over a Vec: an index loop; the element is addressed as self.buffers[index]"),
+        (r"std::mem::forget\(buffer\.take\(\)\);", "forget_slot(&mut self.buffers, index);", "R-forget", "shim: Option::take on the slot + mem::forget of what was taken (the buffer is leaked, never dropped)"),
+        (r"io::Error::from_raw_os_error\((-?\w+)\)", r"io_error_os(\1)", "R-ioerr", "shim: an opaque std::io::Error"),
+        (r"io::Error::new\(" + ws + r"io::ErrorKind::WriteZero," + ws + r"format!\(\"[^\"]*\"\)," + ws + r"\)", "io_error_short_write(result, expected)", "R-ioerr", "shim: an opaque std::io::Error (message dropped)"),
+        (r"\bio::Result<", "IoResult<", "R-ioerr", "std::io::Result with the opaque error type"),
+        (r"for" + ws + r"cqe" + ws + r"in" + ws + r"ring\.completion\(\)" + ws + r"\{", "while let Some(cqe) = ring.next_cqe() {", "R-cq",
+         "definition of iterating the completion queue: entries are consumed one by one until none is left (A37)"),
+    ]
+    for pat, rep, rname, why in table:
+        n = 0
+        while n < 16:
+            n += 1
+            mm = re.search(pat, text)
+            if not mm:
+                break
+            new = mm.expand(rep)
+            if new == text[mm.start():mm.end()]:
+                break
+            apps.append(_app(rname, text, mm.start(), mm.end(), new, why))
+            text = text[:mm.start()] + new + text[mm.end():]
+    return text, apps
+
+
 def rule_wbshutdown(text):
     """WriteBuffer::{initiate_shutdown, finish_shutdown} (write_buffer.rs)"""
     apps = []
